@@ -360,6 +360,40 @@ func solveAll(units []*UnitResult, filter func(*Oblig) bool, timeout int, thorou
 	}
 	sem := make(chan struct{}, 16)
 	var wg sync.WaitGroup
+	// vacuity guard: the facts accumulated for a function together with "a return is reached" must be satisfiable;
+	// contradictory assumptions (a bad requires, an unsound model) would discharge everything
+	for _, u := range units {
+		if u.RetPC == "" || u.RetPC == "false" || len(u.Obs) == 0 {
+			continue
+		}
+		any := false
+		for _, o := range u.Obs {
+			if o.Solver != "syntactic" && (filter == nil || filter(o)) {
+				any = true
+			}
+		}
+		if !any {
+			continue
+		}
+		wg.Add(1)
+		go func(u *UnitResult) {
+			defer wg.Done()
+			sem <- struct{}{}
+			defer func() { <-sem }()
+			cover := &Oblig{Func: u.Key, Kind: "cover", Label: "return reachable", PC: u.RetPC, Cond: "false", nf: len(u.engine.facts), name: u.Pkg + "/" + strings.TrimPrefix(u.Key, "func ") + "/cover/return-reachable"}
+			vc := u.engine.sliceVC(cover, true, nil)
+			for _, sp := range []solverSpec{solvers[0], solvers[1]} {
+				r, _, _ := runSolver(sp, vc, 5)
+				if r == "unsat" {
+					u.Vacuous = sp.name
+					return
+				}
+				if r == "sat" {
+					return
+				}
+			}
+		}(u)
+	}
 	for _, j := range jobs {
 		wg.Add(1)
 		go func(j job) {
